@@ -5,7 +5,9 @@ ALL = [f"C{i:02d}" for i in range(1, 21)]
 COMMON_NOTE = ("Trusted: Coq 8.16.1 kernel incl. vm_compute (no native_compute); the reflective constant exporter harness/gen_constants.py; "
                "extraction with ExtrOcamlBasic only (no Extract Constant) + ocaml/driver.ml; the correspondence harness and its reference oracles "
                "(hashlib, cryptography, pyOpenSSL, json, cbor2). Theorems are about the hand-written Gallina model coq/Model/*.v, tied to /repo on "
-               "every run by (1) regenerated coq/Generated/Constants.v and (2) differential execution model vs implementation. ")
+               "every run by (1) regenerated coq/Generated/Constants.v and (2) differential execution model vs implementation; generated inputs include the "
+               "literals the current source has and the pinned baseline harness/srcdict_baseline.json lacks, a size ladder, child interpreters under other process "
+               "environments and equivalent spellings of the same input (DESIGN 2.9). ")
 CLAIMS = {
  "C14": dict(
    text="Machine-checked theorems (all byte strings, any length, any amount of '=' padding): round trip, alphabet, injectivity, over an exact Gallina model of CPython's lenient base64 decoder; the model is tied to the code by exhaustive (length 0-2) and seeded differential execution.",
